@@ -388,6 +388,63 @@ func (p stProp) Gen(r *Rand, idx int, tier string) Sx {
 				continue
 			}
 		}
+		// directed "held across a full turn" scenario: a reader is obtained (or an upload is
+		// started and stalled), the block list then makes a full turn and one more allocation -
+		// the block is released and its space handed out again - and only then is the reader
+		// consumed (the upload resumed).  What comes back must be the object's bytes or an
+		// error, never another object's bytes; the later objects must stay intact.
+		if len(threads) == 0 && len(ops)+20 < nops && r.Chance(6) {
+			big := []int{}
+			for o := 0; o < nobj; o++ {
+				if len(objs[o])*2 >= bs && len(objs[o]) <= bs {
+					big = append(big, o)
+				}
+			}
+			if len(big) > 0 {
+				target := r.Intn(nobj)
+				ti := inst()
+				up := func(o, i int) {
+					tid := nextTid
+					nextTid++
+					ops = append(ops, L(A(1), AI(tid), AI(o), AI(i)))
+					for _, ch := range stSplit(r, objs[o]) {
+						ops = append(ops, L(A(2), AI(tid), LBytes(ch)))
+					}
+					ops = append(ops, L(A(3), AI(tid), A(0)))
+				}
+				turn := func() []int {
+					seen := []int{}
+					for k := old + cur + nw + 1 + r.Intn(2); k > 0; k-- {
+						o := big[r.Intn(len(big))]
+						up(o, ti)
+						seen = append(seen, o)
+					}
+					return seen
+				}
+				var later []int
+				if r.Chance(60) {
+					up(target, ti)
+					tg := nextTid
+					nextTid++
+					ops = append(ops, L(A(4), AI(tg), AI(target), AI(ti)))
+					later = turn()
+					ops = append(ops, L(A(5), AI(tg)))
+				} else if len(objs[target]) >= 2 {
+					tu := nextTid
+					nextTid++
+					cut := 1 + r.Intn(len(objs[target])-1)
+					ops = append(ops, L(A(1), AI(tu), AI(target), AI(ti)), L(A(2), AI(tu), LBytes(objs[target][:cut])))
+					later = turn()
+					ops = append(ops, L(A(2), AI(tu), LBytes(objs[target][cut:])), L(A(3), AI(tu), A(0)))
+				}
+				for _, o := range later {
+					tg := nextTid
+					nextTid++
+					ops = append(ops, L(A(4), AI(tg), AI(o), AI(ti)), L(A(5), AI(tg)))
+				}
+				continue
+			}
+		}
 		// directed "composite touch" scenario: a composite parent is uploaded and aged into the
 		// old blocks; one of its children gets a fresher copy of its own (uploaded directly);
 		// a composite read of that child must still refresh the PARENT: after old_blocks
